@@ -287,6 +287,20 @@ def board_trace(job) -> List[Dict[str, Any]]:
     """One board driven through the manager (o=0, hands), a plain
     PlayingPhase (o=1) and the four observers (o=2..5)."""
     (tid, deal, trump, decl, plays, style, sd, inject, observers) = job
+    # the command lines of server and client switch DEBUG logging on: every 5th
+    # board is played with the root logger at DEBUG (records formatted into a sink)
+    if (sum(map(ord, str(tid))) + trump) % 5 == 2:
+        from .baton import log_debug_off, log_debug_on
+        state = log_debug_on()
+        try:
+            return _board_trace(job)
+        finally:
+            log_debug_off(state)
+    return _board_trace(job)
+
+
+def _board_trace(job) -> List[Dict[str, Any]]:
+    (tid, deal, trump, decl, plays, style, sd, inject, observers) = job
     r = rng('board', sd, tid)
     evs: List[Dict[str, Any]] = []
     man = Obj(0, 'hands', NOSEAT, deal, trump, decl,
@@ -358,6 +372,11 @@ def board_trace(job) -> List[Dict[str, Any]]:
                 ok_card = r.choice(legal)
                 if active not in (o.me, dummy) or ok_card in hands[active]:
                     evs.append(ev_play(tid, o, active, ok_card, fork=how))
+                    # what the object itself offers afterwards is still the playable
+                    # set of the hands it held before the copy was played on
+                    evs.append(ev_avail(tid, o, 'own'))
+                    evs.append(ev_avail(tid, o, 'dummy'))
+            evs.append(ev_avail(tid, man, 'hand', seat=active))
         # ---- refused plays (C05) ----
         if inject:
             others = [s for s in range(4) if s != active]
@@ -488,6 +507,18 @@ def trick_events(job) -> List[Dict[str, Any]]:
 
 
 def avail_events(job) -> List[Dict[str, Any]]:
+    # every 3rd chunk with DEBUG logging switched on (as the command lines do)
+    if sum(map(ord, str(job[0]))) % 3 == 0:
+        from .baton import log_debug_off, log_debug_on
+        state = log_debug_on()
+        try:
+            return _avail_events(job)
+        finally:
+            log_debug_off(state)
+    return _avail_events(job)
+
+
+def _avail_events(job) -> List[Dict[str, Any]]:
     tid0, hands, leds = job
     out = []
     k = 0
